@@ -32,5 +32,11 @@ type Void struct{}
 
 // NewHost creates a new extension host.
 func NewHost() *Host {
-	return &Host{Events: &Events{}}
+	events := &Events{}
+	// All after-events of a host share one queue, so a listener sees them in the order they
+	// happened (ex: a message's stored event before its deleted event).
+	queue := &asyncQueue{}
+	events.AfterMessageDeleted.queue = queue
+	events.AfterMessageStored.queue = queue
+	return &Host{Events: events}
 }
